@@ -196,24 +196,73 @@ fn parse_pattern_nosubst<L: Language>(
         }
         tok = &tok[1..];
 
-        let syntax_elems_mock: Vec<_> = syntax_elems
+        // A bare identifier inside a node is either a child term (e.g. `map` in `(app map ?x)`) or a payload field of
+        // the node itself (e.g. `3` in `(tag 3 $x ?t)`); the language decides. Children are tried first.
+        let bare: Vec<usize> = syntax_elems
             .iter()
-            .map(|x| match x {
-                NestedSyntaxElem::String(s) => SyntaxElem::String(s.clone()),
-                NestedSyntaxElem::Slot(s) => SyntaxElem::Slot(*s),
-                NestedSyntaxElem::Pattern(_) => SyntaxElem::AppliedId(AppliedId::null()),
-            })
+            .enumerate()
+            .filter(|(_, x)| matches!(x, NestedSyntaxElem::Bare(..)))
+            .map(|(i, _)| i)
             .collect();
-        let node = L::from_syntax(&syntax_elems_mock)
-            .ok_or_else(|| ParseError::FromSyntaxFailed(syntax_elems_mock.clone()))?;
-        // from_syntax may ignore surplus elements: the node has to account for every element that was written.
-        if node.to_syntax().len() != syntax_elems_mock.len() {
-            return Err(ParseError::FromSyntaxFailed(syntax_elems_mock));
+        let mut found: Option<(L, Vec<bool>)> = None;
+        let mut first_mock: Option<Vec<SyntaxElem>> = None;
+        for mask in 0..(1usize << bare.len().min(8)) {
+            // bit i set: the i-th bare identifier is a payload of this node
+            let as_payload: Vec<bool> = (0..syntax_elems.len())
+                .map(|i| match bare.iter().position(|b| *b == i) {
+                    Some(k) => (mask >> k) & 1 == 1,
+                    None => false,
+                })
+                .collect();
+            let mut possible = true;
+            let mock: Vec<SyntaxElem> = syntax_elems
+                .iter()
+                .enumerate()
+                .map(|(i, x)| match x {
+                    NestedSyntaxElem::String(s) => SyntaxElem::String(s.clone()),
+                    NestedSyntaxElem::Slot(s) => SyntaxElem::Slot(*s),
+                    NestedSyntaxElem::Pattern(_) => SyntaxElem::AppliedId(AppliedId::null()),
+                    NestedSyntaxElem::Bare(s, pat) => {
+                        if as_payload[i] {
+                            SyntaxElem::String(s.clone())
+                        } else {
+                            if pat.is_none() {
+                                possible = false;
+                            }
+                            SyntaxElem::AppliedId(AppliedId::null())
+                        }
+                    }
+                })
+                .collect();
+            if first_mock.is_none() {
+                first_mock = Some(mock.clone());
+            }
+            if !possible {
+                continue;
+            }
+            if let Some(node) = L::from_syntax(&mock) {
+                // from_syntax may ignore surplus elements: the node has to account for every element that was written.
+                if node.to_syntax().len() == mock.len() {
+                    found = Some((node, as_payload));
+                    break;
+                }
+            }
         }
+        let Some((node, as_payload)) = found else {
+            return Err(ParseError::FromSyntaxFailed(first_mock.unwrap_or_default()));
+        };
         let syntax_elems = syntax_elems
             .into_iter()
-            .filter_map(|x| match x {
+            .enumerate()
+            .filter_map(|(i, x)| match x {
                 NestedSyntaxElem::Pattern(pat) => Some(pat),
+                NestedSyntaxElem::Bare(_, pat) => {
+                    if as_payload[i] {
+                        None
+                    } else {
+                        pat
+                    }
+                }
                 NestedSyntaxElem::String(_) => None,
                 NestedSyntaxElem::Slot(_) => None,
             })
@@ -239,6 +288,8 @@ enum NestedSyntaxElem<L: Language> {
     Pattern(Pattern<L>),
     Slot(Slot),
     String(String),
+    // a bare identifier: its spelling, and the term it denotes on its own (if it denotes one)
+    Bare(String, Option<Pattern<L>>),
 }
 
 fn parse_nested_syntax_elem<L: Language>(
@@ -246,6 +297,12 @@ fn parse_nested_syntax_elem<L: Language>(
 ) -> Result<(NestedSyntaxElem<L>, &[Token]), ParseError> {
     if let Some(Token::Slot(slot)) = tok.get(0) {
         return Ok((NestedSyntaxElem::Slot(*slot), &tok[1..]));
+    }
+
+    // a bare identifier that is not followed by a substitution bracket
+    if let (Some(Token::Ident(s)), false) = (tok.get(0), matches!(tok.get(1), Some(Token::LBracket))) {
+        let pat = parse_pattern::<L>(&tok[..1]).ok().map(|(p, _)| p);
+        return Ok((NestedSyntaxElem::Bare(s.clone(), pat), &tok[1..]));
     }
 
     parse_pattern::<L>(tok).map(|(x, rest)| (NestedSyntaxElem::Pattern(x), rest))
